@@ -552,6 +552,15 @@ def _to_c_expr(
                     f"{helper}(__redu_operands<{cast}>{{static_cast<{cast}>({emit(n.left)}), "
                     f"static_cast<{cast}>({emit(n.right)})}})"
                 )
+            if isinstance(n.op, ast.Pow):
+                # C++ has no ``**`` operator
+                _mark_helper("arith")
+                operand_types = (_infer_arg_type(n.left), _infer_arg_type(n.right))
+                cast = "float" if "float" in operand_types else "long"
+                return (
+                    f"__redu_pow(__redu_operands<{cast}>{{static_cast<{cast}>({emit(n.left)}), "
+                    f"static_cast<{cast}>({emit(n.right)})}})"
+                )
             return f"({emit(n.left)} {_BIN[type(n.op)]} {emit(n.right)})"
 
         if isinstance(n, ast.UnaryOp) and type(n.op) in _UN:
@@ -1885,9 +1894,9 @@ def _handle_assignment_ast(
         )
         var_types[target.id] = inferred_type
         vars_env[target.id] = _ExprStr(target.id)
-        if isinstance(stmt.op, (ast.Div, ast.FloorDiv, ast.Mod)):
-            # same lowering as the binary operator (true division, floor division, modulo)
-            py_symbol = {ast.Div: "/", ast.FloorDiv: "//", ast.Mod: "%"}[type(stmt.op)]
+        if isinstance(stmt.op, (ast.Div, ast.FloorDiv, ast.Mod, ast.Pow)):
+            # same lowering as the binary operator (true division, floor division, modulo, power)
+            py_symbol = {ast.Div: "/", ast.FloorDiv: "//", ast.Mod: "%", ast.Pow: "**"}[type(stmt.op)]
             combined = _to_c_expr(f"{target.id} {py_symbol} ({rhs_src})", vars_env, ctx)
             nodes.append(VarAssign(name=target.id, expr=combined))
             return nodes
